@@ -161,6 +161,8 @@ Section AvailSteps.
     - unfold fund_reserve in H. destr_all H. injection H as <-. exact HA.
     - destr_all H. injection H as <-. exact HA.
     - destr_all H. injection H as <-. exact HA.
+    - unfold hand_over_v1 in H. destr_all H; try (injection H as <-; exact HA).
+      injection H as <-. cbn [lends]. apply A_upd; [exact HA|cbn [upd_lend l_avail]; eapply HA; eassumption].
   Qed.
 
   Lemma run_avail ops : forall st, Good cfg st -> clean cfg st ops -> Avail (lends st) -> Avail (lends (run cfg st ops)).
